@@ -1,5 +1,6 @@
 """Contracts for measured.Unit (C01, C02, C03, C11)."""
 import z3
+from pyvc.ops import Unsupported
 from pyvc.sorts import *  # noqa
 from pyvc.verify import Contract
 from pyvc.ops import pymod, pydiv
@@ -295,8 +296,12 @@ class DimensionOfLoop(Loop):
     def inv(self, c, e, V):
         m = as_vmap(c, e.factors)
         i = z3.Int("i!lp")
-        yield "dimension-live", wf_dim(c, e.dimension)
-        yield "partial-fold", z3.ForAll([i], z3.Implies(z3.And(i >= 0, i < NDIM), dexp(c, e.dimension, i) == dimOf(restrict(m, V), i)))
+        carried = c.old.loop.carried  # the accumulated dimension, whatever the local is called
+        if len(carried) != 1:
+            raise Unsupported("_dimension_of loop: expected exactly one carried variable, found %s" % (carried,))
+        acc = getattr(e, carried[0])
+        yield "dimension-live", wf_dim(c, acc)
+        yield "partial-fold", z3.ForAll([i], z3.Implies(z3.And(i >= 0, i < NDIM), dexp(c, acc, i) == dimOf(restrict(m, V), i)))
         yield "table-grows", same_table_grows(c, "Dimension._known")
         for nm, f in NF(c, m):
             yield "NF-" + nm, f
